@@ -94,6 +94,18 @@ def act (d : DSt) (lab : List Pc → (Nat → Nat) → Option Label) : DSt × St
     let (st, ok) := advance (wsys wc) d.wstates (fun s => (lab s.core.ws (obsIdx wc)).bind (wstep wc s))
     reply { d with wstates := st, overflow := d.overflow || !ok }
 
+/-- apply two environment labels released together (`ParConform.advance2`) -/
+def act2 (d : DSt) (lab1 lab2 : List Pc → (Nat → Nat) → Option Label) : DSt × String :=
+  match d.wcfg with
+  | none =>
+    let (st, ok) := advance2 (sys d.cfg) d.states
+      (fun s => (lab1 s.ws id).bind (Model.ParDo.step d.cfg s)) (fun s => (lab2 s.ws id).bind (Model.ParDo.step d.cfg s))
+    reply { d with states := st, overflow := d.overflow || !ok }
+  | some wc =>
+    let (st, ok) := advance2 (wsys wc) d.wstates
+      (fun s => (lab1 s.core.ws (obsIdx wc)).bind (wstep wc s)) (fun s => (lab2 s.core.ws (obsIdx wc)).bind (wstep wc s))
+    reply { d with wstates := st, overflow := d.overflow || !ok }
+
 /-- the worker in which the call the harness names `i` is in progress -/
 def findEnd (i : Nat) (r : Res) (ws : List Pc) (obs : Nat → Nat) : Option Label :=
   (ws.findIdx? (fun pc => match pc with | .inF j => obs j == i | _ => false)).map fun w => Label.fEnd w r
@@ -114,6 +126,8 @@ def step (d : DSt) : List String → DSt × String
   | ["cancel"] => act d (fun _ _ => some .callerCancel)
   | ["end", i, "ok", v] => act d (findEnd (natOr i) (.ok (natOr v)))
   | ["end", i, "err", k] => act d (findEnd (natOr i) (.err (natOr k)))
+  | ["end2", i, "err", k, j, "err", l] =>
+    act2 d (findEnd (natOr i) (.err (natOr k))) (findEnd (natOr j) (.err (natOr l)))
   | "obs" :: rest =>
     let want := joinWith " " rest
     match d.wcfg with
